@@ -203,6 +203,8 @@ func (e *SpecEnv) ident(name string) T {
 		return Bool(false)
 	case "nil":
 		return nilT
+	case "TIME_ZERO": // the zero time.Time (t.IsZero())
+		return T{S: "TIME_ZERO", Sort: SInt}
 	}
 	if v, ok := e.vars[name]; ok {
 		return e.valTerm(v, name)
